@@ -1239,8 +1239,10 @@ htp_status_t htp_tx_state_response_complete_ex(htp_tx_t *tx, int hybrid_mode) {
         // It is not enough to check only in_status here. Because of pipelining, it's possible
         // that many inbound transactions have been processed, and that the parser is
         // waiting on a response that we have not seen yet.
+        int yield = 0;
+
         if ((tx->connp->in_status == HTP_STREAM_DATA_OTHER) && (tx->connp->in_tx == tx->connp->out_tx)) {
-            return HTP_DATA_OTHER;
+            yield = 1;
         }
 
         // Do we have a signal to yield to inbound processing at
@@ -1248,6 +1250,23 @@ htp_status_t htp_tx_state_response_complete_ex(htp_tx_t *tx, int hybrid_mode) {
         if (tx->connp->out_data_other_at_tx_end) {
             // We do. Let's yield then.
             tx->connp->out_data_other_at_tx_end = 0;
+            yield = 1;
+        }
+
+        if (yield) {
+            // The response is complete: finalize and detach the transaction before
+            // yielding, not when the caller comes back. Otherwise the inbound parser,
+            // which completes the request in the meantime, finalizes the transaction
+            // as well and TRANSACTION_COMPLETE is run twice (or, with auto-destroy,
+            // the outbound parser is left with a state that expects a transaction).
+            htp_connp_t *connp = tx->connp;
+
+            htp_status_t rc = htp_tx_finalize(tx);
+            if (rc != HTP_OK) return rc;
+
+            connp->out_tx = NULL;
+            connp->out_state = htp_connp_RES_IDLE;
+
             return HTP_DATA_OTHER;
         }
     }
